@@ -289,7 +289,9 @@ def _valid(hyps, goal, ms=4000):
 
 MM_CASES = [("qint8", None, "qint8", None), ("qint8", None, "qint8", 0), ("qint8", None, "qint8", -1), ("qint8", 0, "qint8", None), ("qint8", -1, "qint8", None),
             ("qint8", 0, "qint8", -1), ("qfloat8_e4m3fn", None, "qint8", None), ("qint8", None, "qfloat8_e4m3fn", None),
-            ("qint8", None, "plain", None), ("plain", None, "qint8", None), ("plain", None, "qint8", 0)]
+            ("qint8", None, "plain", None), ("plain", None, "qint8", None), ("plain", None, "qint8", 0),
+            # the second operand is the transpose of a (p, m) quantized tensor - the torch.matmul(x, w.t()) idiom
+            ("qint8", None, "qint8.t", None), ("qint8", None, "qint8.t", 0)]
 
 
 _SCALE_LEMMAS = set()
@@ -361,6 +363,11 @@ def aten_mm(run):
                 def mk(q, shape, nm, axis=None):
                     if q == "plain":
                         return new_input(E2, nm, "float32", shape)
+                    if q.endswith(".t"):
+                        # transpose of a quantized (.., p, m) tensor (axis given for the transposed result: 0 <-> -1 swapped before)
+                        src_axis = None if axis is None else (-1 if axis == 0 else 0)
+                        base = OC.H(E2, q[:-2], src_axis, "float32").q(shape[:-2] + [shape[-1], shape[-2]], name=nm, axis=src_axis)
+                        return call_aten(E2, AtenOp("transpose"), [base, -2, -1], {})
                     return OC.H(E2, q, axis, "float32").q(shape, name=nm, axis=axis)
                 a = mk(qa, lead + [n, m], "A", axis_a)
                 b = mk(qb, lead + [m, p], "Bm", axis_b)
